@@ -780,7 +780,13 @@ func (s *Sim) quiesce() {
 	if s.ownAlarms() > 0 {
 		return
 	}
+	// one periodic round of the plugin's Run loop: a resync pass followed by the pod-IP sync pass
 	s.stepResync()
+	s.afterStep()
+	if s.ownAlarms() > 0 {
+		return
+	}
+	s.stepSyncPodIPs()
 	s.afterStep()
 	if s.ownAlarms() > 0 {
 		return
@@ -789,6 +795,11 @@ func (s *Sim) quiesce() {
 }
 
 func (s *Sim) checkQuiescent() {
+	// alarms of the quiescent point are named after the periodic round ("resync"), whatever its last pass was
+	if s.faultTag == "" {
+		s.faultTag = "resync"
+		defer func() { s.faultTag = "" }()
+	}
 	v := s.observe()
 	s.Counts["quiescent_checks"]++
 	byApp := map[string]int{}
